@@ -109,19 +109,32 @@ type enumPlan struct {
 }
 
 type gen struct {
-	t       *rapid.T
-	mode    Mode
-	pkg     string
-	msgs    []*msgPlan
-	enums   []*enumPlan
-	nameSeq int
-	Classes map[string]bool
+	t          *rapid.T
+	mode       Mode
+	pkg        string
+	msgs       []*msgPlan
+	enums      []*enumPlan
+	nameSeq    int
+	plainTaken map[string]bool // plain names used in this file
+	Classes    map[string]bool
 }
 
 func (g *gen) cls(c string) { g.Classes[c] = true }
 
+// plainNames are field names without a sequence number: the ones other code is
+// likely to look for by name (entity parts, wrapper members, map entries).
+var plainNames = []string{"keys", "data", "status", "metadata", "event", "value", "key", "state", "id", "page", "query"}
+
 func (g *gen) fieldName() string {
 	g.nameSeq++
+	if rapid.IntRange(0, 14).Draw(g.t, "plainname") == 0 {
+		n := rapid.SampledFrom(plainNames).Draw(g.t, "plainnamev")
+		if !g.plainTaken[n] {
+			g.plainTaken[n] = true
+			g.cls("field-named:" + n)
+			return n
+		}
+	}
 	w := rapid.SampledFrom(words).Draw(g.t, "word")
 	switch rapid.IntRange(0, 5).Draw(g.t, "namestyle") {
 	case 0:
@@ -436,6 +449,11 @@ func (g *gen) drawType(forMsg *msgPlan, onlyMessages bool, allowAny bool) fieldT
 
 func (g *gen) buildMessage(p *msgPlan) {
 	t := g.t
+	if g.plainTaken == nil {
+		// once per file: flattened members share their holder's JSON names, and
+		// duplicates there are a finding of their own (C18)
+		g.plainTaken = map[string]bool{}
+	}
 	d := &descriptorpb.DescriptorProto{Name: proto.String(p.name)}
 	p.desc = d
 	num := int32(0)
